@@ -237,7 +237,7 @@ theorem wigmCount_terminates' (hA : LawfulArith A) (o : WigmOpts) (hz : o.batchZ
     crash flag is up exactly `seats` candidates are elected and nobody is left hopeful -/
 theorem wigm_result (hA : LawfulArith A) (o : WigmOpts) (hz : o.batchZero = false) (hex : o.prf = true → A.exact = false)
     (s0 t : St α) (h0 : GStart A (wigmQuota A o s0) s0) (h : wigmCount A o s0 = some t) :
-    RecMon (snaps t.acts) ∧ Ext s0 t ∧ (t.crash = none → nEl t = t.seats ∧ nHop t = 0) := by
+    Mon t ∧ Ext s0 t ∧ (t.crash = none → nEl t = t.seats ∧ nHop t = 0) := by
   have hinit := WigmInv.init A hA o h0
   unfold wigmCount at h
   cases hl : loopN stdGuard (wigmBody A o) (2 * s0.cands.length + 3) (wigmInit A o s0) with
@@ -250,7 +250,7 @@ theorem wigm_result (hA : LawfulArith A) (o : WigmOpts) (hz : o.batchZero = fals
     have hX : Ext s0 s4 := by
       have h1 : Ext s0 (wigmInit A o s0) := by rw [wigmInit_eq]; exact (h0.facts A hA).2.2.2.2.2.2.2
       exact h1.trans (ext_loopN stdGuard (wigmBody A o) (ext_wigmBody A o) _ _ _ hl)
-    refine ⟨(epilogue_good A ⟨hE.1, hM⟩).2.1, hX.trans (ext_epilogue A s4), ?_⟩
+    refine ⟨(epilogue_good A ⟨hE.1, hM⟩).2, hX.trans (ext_epilogue A s4), ?_⟩
     intro hcr
     rw [epilogue_crash] at hcr
     have hel : nEl s4 ≤ s4.seats := elected_le_seats A hE.1 hE.2 hD
